@@ -74,12 +74,23 @@ func replay(path string) {
 		want, _ := hex.DecodeString(w.WantHex)
 		j := &drv.XformJob{Spec: drv.Spec{Pkg: w.Pkg, Quirks: w.Quirks, Data: data}, Script: drv.Script{DstStep: w.DstStep}, Ample: uint32(w.WantLen + 4096), Trace: true}
 		one(j)
-		for _, t := range j.Out.Trace {
+		tr := j.Out.Trace
+		if len(tr) > 40 {
+			fmt.Printf("   (%d calls; first and last 20 shown)\n", len(tr))
+			tr = append(append([]string{}, tr[:20]...), tr[len(tr)-20:]...)
+		}
+		for _, t := range tr {
 			fmt.Println("  ", t)
+		}
+		if w.DstStep > 0 {
+			fmt.Printf(" streaming decode: every call gets a fresh %d-byte destination buffer\n", w.DstStep)
 		}
 		fmt.Printf(" %s (%s build) on %s\n final status %q, %d output bytes (want %d), crash=%q\n", w.Pkg, kind.Variant, w.Desc, j.Out.Status, j.Out.OutLen, w.WantLen, j.Out.Crash)
 		fmt.Printf(" output = %x\n want   = %x\n", clip(j.Out.Out, 64), clip(want, 64))
-		bad = j.Out.Status != "" || int(j.Out.OutLen) != w.WantLen || !bytes.Equal(clip(j.Out.Out, len(want)), want)
+		bad = j.Out.Status != "" || int(j.Out.OutLen) != w.WantLen || !bytes.Equal(clip(j.Out.Out, len(want)), want) || (w.WantFNV != 0 && fnv(j.Out.Out) != w.WantFNV)
+		if d := w.WantFNV != 0 && fnv(j.Out.Out) != w.WantFNV; d {
+			fmt.Println(" the whole output differs from the expected payload (FNV-1a of all bytes)")
+		}
 	case "image":
 		var w imageWitness
 		json.Unmarshal(doc.Witness, &w)
